@@ -359,6 +359,19 @@ def check_case(d):
                 add(ob, what, mode="insert", missing_subblock=info["missing_subblock"])
             if not fermionic and type(y) is not type(x):
                 add("C05.class", f"class changed {type(x).__name__} -> {type(y).__name__}")
+            # fusing in place gives the same array (and returns the receiver)
+            try:
+                xc = x.copy()
+                gs = [tuple(g) for g in groups]
+                y2 = xc.fuse(*gs, inplace=True) if fermionic else xc.fuse(*gs, mode="insert", inplace=True)
+                if y2 is not xc:
+                    add("C05.inplace_equals_out_of_place", "fuse(inplace=True) did not return the receiver", mode="insert")
+                else:
+                    ok2, why2 = arrays_equal(y2, y, exact=True, check_subinfo=True, why=True)
+                    if not ok2:
+                        add("C05.inplace_equals_out_of_place", f"fuse(inplace=True) differs from fuse(): {why2}", mode="insert")
+            except Exception as e:  # noqa: BLE001
+                add("C05.no_exception", f"inplace: {type(e).__name__}: {e}", mode="insert", exception=type(e).__name__)
 
     elif contract == "C05.unfuse_roundtrip":
         try:
